@@ -11,6 +11,7 @@ theorem L_closeCollect_core (s s' : State) (t : Tid) (hint : Option Id) (th0 : T
   have hcl : (s.thr t).pc.closerOf = none := by rw [hpc]; rfl
   have hld : (s.thr t).pc.loaderOf = none := by rw [hpc]; rfl
   have hhold : (s.thr t).pc.holds = none := by rw [hpc]; rfl
+  have hrm : (s.thr t).pc.rmRef = none := by rw [hpc]; rfl
   thr_facts
   have hmr : ∀ r, r ∈ th0.todo ↔ (r < s.nHeap ∧ s.map (s.heap r).id = some r) := by
     intro r; rw [htd r]; exact mem_mapRefs
@@ -44,6 +45,10 @@ local macro "open_env" : tactic => `(tactic|
    have hcl0 := congrArg Pc.closerOf hpc
    have hld0 := congrArg Pc.loaderOf hpc
    have hhold0 := congrArg Pc.holds hpc
+   have hrm0 := congrArg Pc.rmRef hpc
+   generalize hrm : (s.thr t).pc.rmRef = rm at hrm0
+   simp only [Pc.rmRef] at hrm0
+   subst hrm0
    generalize hcl : (s.thr t).pc.closerOf = cl at hcl0
    generalize hld : (s.thr t).pc.loaderOf = ld at hld0
    generalize hhold : (s.thr t).pc.holds = hd at hhold0
@@ -87,6 +92,10 @@ local macro "closer_pre" : tactic => `(tactic|
    have hcl : (s.thr t).pc.closerOf = some r := by rcases hpc with h | h <;> rw [h] <;> rfl
    have hld : (s.thr t).pc.loaderOf = none := by rcases hpc with h | h <;> rw [h] <;> rfl
    have hhold : (s.thr t).pc.holds = none := by rcases hpc with h | h <;> rw [h] <;> rfl
+   have hrm : (s.thr t).pc.rmRef = some r ∨ (s.thr t).pc = .inTry r i := by
+     rcases hpc with h | h
+     · left; rw [h]; rfl
+     · right; exact h
    have hnd : ∀ res, (s.thr t).pc ≠ .done res := by
      intro res; rcases hpc with h | h <;> rw [h] <;> simp
    have hnc : ∀ r i ab, (s.thr t).pc ≠ .loadCommit r i ab := by
